@@ -13,8 +13,8 @@ base=$(go test -vet=off -count=1 -run '^TestMutantDemo$' -timeout 5m ./$pkg 2>&1
 git apply $src/patch.diff || { echo "patch failed"; cd /; git -C /repo worktree remove --force $wt; exit 9; }
 mut=$(go test -vet=off -count=1 -run '^TestMutantDemo$' -timeout 5m ./$pkg 2>&1 | tail -4 | tr '\n' ' ')
 rm -f $wt/$pkg/zz_demo_test.go
-suite=$(go test -vet=off -count=1 -timeout 20m ./... 2>&1 | tail -4 | tr '\n' ' ')
-case "$suite" in *FAIL*) sleep 30; suite2=$(go test -vet=off -count=1 -timeout 20m ./... 2>&1 | tail -4 | tr '\n' ' '); suite="first run: $suite ; re-run: $suite2";; esac
+suite=$(go test -vet=off -count=1 -timeout 4m ./... 2>&1 | tail -4 | tr '\n' ' ')
+case "$suite" in *FAIL*) sleep 30; suite2=$(go test -vet=off -count=1 -timeout 4m ./... 2>&1 | tail -4 | tr '\n' ' '); suite="first run: $suite ; re-run: $suite2";; esac
 cd /
 git -C /repo worktree remove --force $wt
 cp $src/patch.diff $dst/patch.diff; cp $src/demo_test.go $dst/demo_test.go; cp $src/notes.txt $dst/agent_notes.txt 2>/dev/null
@@ -24,7 +24,7 @@ prop,idx,base,mut,suite,dst=sys.argv[1:7]
 notes=open(dst+'/agent_notes.txt').read() if __import__('os').path.exists(dst+'/agent_notes.txt') else ''
 json.dump({"property":prop,"mutant":int(idx),"needs_to_manifest":notes[:1500],
  "confirmed":{"demo_without_patch":base,"demo_with_patch":mut,"full_suite_with_patch":suite,
- "commands":["go test -vet=off -count=1 -run '^TestMutantDemo$' ./<pkg> (scratch worktree of /repo HEAD, with and without patch.diff)","go test -vet=off -count=1 -timeout 20m ./... (with patch.diff)"]},
+ "commands":["go test -vet=off -count=1 -run '^TestMutantDemo$' ./<pkg> (scratch worktree of /repo HEAD, with and without patch.diff)","go test -vet=off -count=1 -timeout 4m ./... (with patch.diff)"]},
  "detected_by":"see DESIGN.md section 10 (filled in after the check run)"}, open(dst+'/meta.json','w'), indent=1)
 PY
 echo "$prop m$idx | base: $base | mut: $mut | suite: $suite"
